@@ -47,7 +47,7 @@ def plan(tier, seed):
 def make_case(spec, i):
     info = catalog.info(spec["cls"])
     r = gen.rng_for(spec["seed"], "C15", spec["cls"], spec["stratum"], i)
-    g = gen.G(r, attr=info.attr)
+    g = gen.G(r, attr=info.attr, surrogates=True)
     nres = r.choice([1, 2, 3, 4])
     inits = [MISSING if r.random() < 0.15 else g.shape(info.kind, 2) for _ in range(nres)]
     ms = ModelState(info.kind, inits)
